@@ -86,9 +86,10 @@ class Check:
         counts = {}
         for rule, key, ok, facts, vac in self.instances:
             counts[rule] = counts.get(rule, 0) + 1
+        floor_errors = []
         for rid, floor in self.floors.items():
             if counts.get(rid, 0) < floor and only_key is None:
-                raise AnalysisError(
+                floor_errors.append(
                     f"rule {rid} matched {counts.get(rid, 0)} instance(s), fewer than the {floor} "
                     f"confirmed by hand: the rule lost its anchor"
                 )
@@ -105,7 +106,13 @@ class Check:
                 reported_known.append((f, kmap[fk]))
             else:
                 violations.append(f)
+        # a concrete violation is reported as such; a rule that lost its anchor
+        # without any violation being found must not pass silently
+        if floor_errors and not violations:
+            raise AnalysisError("; ".join(floor_errors))
         out = []
+        for fe_ in floor_errors:
+            out.append(f"  note: {fe_}")
         for f, k in reported_known:
             out.append(f"KNOWN-FINDING: property={self.pid} {f['rule']} {f['key']} :: {k.get('what', f['msg'])}")
         replay_dir = VERIF / "replay"
